@@ -1,5 +1,5 @@
 """Registry: property id -> check function(prop, tier, verdict) -> (level, coverage, assumptions)."""
-import eng_sess, eng_hub
+import eng_sess, eng_hub, eng_disp
 
 SESS_ASSUME = [
     'the in-memory connection of the harness behaves like a reliable byte stream (delivered bytes stay readable after the peer closes; writes fail after a close)',
@@ -21,8 +21,21 @@ def c07(prop, tier, verdict):
     cov['samples'].append({'hub_history': hcov['hub_sample']})
     return 'model_checking', cov, SESS_ASSUME + ['session index: 3 sessions, 2 user ids, histories of at most 7 operations, one operation at a time (quiescent probes)']
 
+DISP_ASSUME = [
+    'one message per scenario between two real peers over the in-memory connection; concurrent arrivals are covered by the sess engine',
+    'plugins registered before the routes exist; each plugin has one of three stage profiles (all / header stages / body+reply stages); at most one vetoing (plugin, stage) per scenario',
+    'raw (default) wire protocol and JSON body codec',
+]
+
+def c_disp(prop, tier, verdict):
+    cov, _ = eng_disp.run(prop, tier, verdict)
+    return 'model_checking', cov, DISP_ASSUME
+
 CHECKS = {
     'C02': c02,
     'C08': c02,
     'C07': c07,
+    'C03': c_disp,
+    'C04': c_disp,
+    'C09': c_disp,
 }
